@@ -17,6 +17,9 @@
 #define MAP_FIXED_NOREPLACE 0x100000
 #endif
 
+// optional observer of freed blocks (the PAR engine's race detector drops its shadow cells)
+void (*sim_layout_free_hook)(void *, size_t) = nullptr;
+
 namespace
 {
   constexpr uintptr_t ARENA_BASE = 0x100000000000ULL;
@@ -70,6 +73,38 @@ namespace
     abort();
   }
 
+  // a pool of its own (fixed base, LIFO reuse) for one kind of object: addresses then depend only on the allocation
+  // history of that kind, not on anything else the process allocates. The PAR engine routes smt::row through it (hook
+  // H2), so that the watch lists (unordered_set<row *>, hashed by address) iterate in the same order in the sequential
+  // and in the parallel build, whose other allocations differ, and under every thread schedule.
+  constexpr uintptr_t DED_BASE = 0x0e0000000000ULL;
+  constexpr size_t DED_SIZE = 1ULL << 30;
+  uintptr_t g_ded_bump = DED_BASE;
+  void *g_ded_free = nullptr;
+  bool g_ded_mapped = false;
+
+  void *ded_alloc(size_t n)
+  {
+    header *h;
+    if (g_ded_free)
+    {
+      h = static_cast<header *>(g_ded_free);
+      g_ded_free = *reinterpret_cast<void **>(h + 1);
+    }
+    else
+    {
+      const size_t bs = ((n + 15) & ~size_t(15)) + sizeof(header);
+      if (g_ded_bump + bs > DED_BASE + DED_SIZE)
+        throw std::bad_alloc();
+      h = reinterpret_cast<header *>(g_ded_bump);
+      g_ded_bump += bs;
+    }
+    h->magic = MAGIC;
+    h->cls = 0xfffffffeu;
+    h->size = n;
+    return h + 1;
+  }
+
   void *arena_alloc(size_t n)
   {
     ++g_allocs;
@@ -112,7 +147,7 @@ namespace
   inline bool in_arena(const void *p)
   {
     const uintptr_t a = reinterpret_cast<uintptr_t>(p);
-    return a >= ARENA_BASE && a < ARENA_BASE + ARENA_SIZE;
+    return (a >= ARENA_BASE && a < ARENA_BASE + ARENA_SIZE) || (a >= DED_BASE && a < DED_BASE + DED_SIZE);
   }
 
   void arena_free(void *p)
@@ -123,6 +158,12 @@ namespace
     h->magic = 0;
     if (h->cls == 0xffffffffu)
       return;
+    if (h->cls == 0xfffffffeu)
+    {
+      *reinterpret_cast<void **>(h + 1) = g_ded_free;
+      g_ded_free = h;
+      return;
+    }
     const size_t c = h->cls;
     if (g_nfree[c] >= FREE_CAP)
       return; // leak rather than overflow
@@ -152,6 +193,23 @@ namespace sim
       g_random = randomise;
       g_limit = limit_bytes && limit_bytes < ARENA_SIZE ? limit_bytes : ARENA_SIZE;
       tl_active = true;
+    }
+    void *pool_alloc(size_t n)
+    {
+      if (!g_ded_mapped)
+      {
+        void *a = mmap(reinterpret_cast<void *>(DED_BASE), DED_SIZE, PROT_READ | PROT_WRITE, MAP_PRIVATE | MAP_ANONYMOUS | MAP_NORESERVE | MAP_FIXED_NOREPLACE, -1, 0);
+        if (a != reinterpret_cast<void *>(DED_BASE))
+          die("cannot map the dedicated pool at its fixed address");
+        g_ded_mapped = true;
+      }
+      return ded_alloc(n);
+    }
+    void pool_free(void *p)
+    {
+      if (sim_layout_free_hook)
+        sim_layout_free_hook(p, (static_cast<header *>(p) - 1)->size);
+      arena_free(p);
     }
     void stop() { tl_active = false; }
     bool active() { return tl_active && tl_suspend == 0; }
@@ -184,8 +242,6 @@ void *operator new(size_t n, const std::nothrow_t &) noexcept
   }
 }
 void *operator new[](size_t n, const std::nothrow_t &t) noexcept { return operator new(n, t); }
-// optional observer of freed blocks (the PAR engine's race detector drops its shadow cells)
-void (*sim_layout_free_hook)(void *, size_t) = nullptr;
 
 void operator delete(void *p) noexcept
 {
